@@ -2,6 +2,7 @@
 mod cases;
 mod obs;
 mod random;
+mod urandom;
 mod replay;
 mod sw;
 mod ureplay;
@@ -25,6 +26,7 @@ fn main() {
     match args.get(1).map(|s| s.as_str()) {
         Some("replay") => cmd_replay(&args[2..]),
         Some("random") => random::run(&args[2..]),
+        Some("urandom") => urandom::run(&args[2..]),
         Some("cases") => cases::run(&args[2], &args[3], arg_val(&args, "--result")),
         _ => {
             eprintln!("usage: mh replay <paths.jsonl> [--obs FILE] [--result FILE] [--threads N] [--only ID] [--obs-sample N]");
